@@ -214,6 +214,15 @@ pub use structs::*;
 
 // 词法解析 正式逻辑开始 //
 
+/// 判断「字符数组切片」是否以**完整的**`needle`开头
+/// * 🚩[`StartsWithStr::starts_with_str`]在切片比`needle`短、且恰为其前缀时亦返回`true`
+///   * 📌如LaTeX格式下输入在`\right)`的中途（如`\`）被截断时：此时算出的右边界会越过输入末尾，
+///     外层再据此切片即越界panic
+/// * 🚩故先行检验长度，保证返回`true`时整个`needle`均在切片之内
+fn starts_with_whole_str(env: ParseEnv, needle: &str) -> bool {
+    needle.chars().count() <= env.len() && env.starts_with_str(needle)
+}
+
 /// 用于把「自由函数」封装成「实例方法」
 trait RightUnwrapOr<T, U> {
     /// 工具函数
@@ -786,12 +795,12 @@ impl ParseState<'_> {
         term_begin += term_len;
         loop {
             // 右括弧⇒跳过，结束
-            if env[term_begin..].starts_with_str(right) {
+            if starts_with_whole_str(&env[term_begin..], right) {
                 right_border = term_begin + right.chars().count();
                 break;
             }
             // 分隔符⇒跳过
-            if env[term_begin..].starts_with_str(&self.format.compound.separator) {
+            if starts_with_whole_str(&env[term_begin..], &self.format.compound.separator) {
                 term_begin += self.format.compound.separator.chars().count();
             }
             // 解析一个词项
@@ -838,12 +847,12 @@ impl ParseState<'_> {
         let right_border;
         loop {
             // 右括弧⇒跳过，结束
-            if env[term_begin..].starts_with_str(right) {
+            if starts_with_whole_str(&env[term_begin..], right) {
                 right_border = term_begin + right.chars().count();
                 break;
             }
             // 分隔符⇒跳过
-            if env[term_begin..].starts_with_str(&self.format.compound.separator) {
+            if starts_with_whole_str(&env[term_begin..], &self.format.compound.separator) {
                 term_begin += self.format.compound.separator.chars().count();
             }
             // 解析一个词项
@@ -905,7 +914,7 @@ impl ParseState<'_> {
 
         // 跳过右括弧 //
         let right_bracket_start = predicate_start + relative_len;
-        let right_border = match env[right_bracket_start..].starts_with_str(right) {
+        let right_border = match starts_with_whole_str(&env[right_bracket_start..], right) {
             true => right_bracket_start + right.chars().count(),
             false => return self.err(env, "未匹配到右括弧"),
         };
